@@ -279,7 +279,9 @@ def graph_level(sp, col, shard):
             col.violation('constraint_architectures_differ', sp,
                           {'missing': len(want - keys), 'n_ref': len(want),
                            'example_missing_assign': ref[miss[0]][0]['assign'], 'api_constraints': case.cons}, flags,
-                          where=dict(where0, level=enc, dir='missing'))
+                          where=dict(where0, level=enc, dir='missing',
+                                     linked_partial_only=common.linked_partial_only(
+                                         sp, [x['assign'] for k in miss for x in ref[k]])))
         if enc == 'COMPLETE':
             try:
                 res = gp.get_all_discrete_x()
